@@ -258,8 +258,15 @@ var lazyAlt int
 func implLazy(t byte, b []byte) (res string, val *wv.V, consumed int64) {
 	p := safely(func() {
 		var ra io.ReaderAt = bytes.NewReader(b)
-		if lazyAlt++; lazyAlt%2 == 0 {
+		switch lazyAlt++; lazyAlt % 4 {
+		case 0:
 			ra = eofReaderAt{b}
+		case 2:
+			// a bytes.Reader that somebody has read from before (hashed, logged, sniffed): ReadAt
+			// does not care about the read position, and Len() is what is left, not the size
+			br := bytes.NewReader(b)
+			io.CopyN(io.Discard, br, int64(len(b)-len(b)/(1+lazyAlt%3)))
+			ra = br
 		}
 		rd := binary.NewReader(ra)
 		w, off, err := rd.ReadValue(wire.Type(t), 0)
@@ -475,6 +482,16 @@ func c02Value(c *checker, v *wv.V, how string) {
 		c.oracle("C02 StreamRead(Encode v)≠v", fmt.Sprintf("D %d %s", v.T, hx(b)), s, "streaming read of Encode(v) is not v: want "+want)
 	}
 	c.expect("C02 stream read vs model dec", fmt.Sprintf("D %d %s", v.T, hx(b)), s)
+	if c02ReuseN%3 == 1 && len(b) < 4000 {
+		// more data behind the value (the next message on the connection), handed out as eagerly
+		// as the reader asks for it: reading the value must take exactly its own bytes
+		more := append(append([]byte{}, b...), b...)
+		more = append(more, 0xff, 0x00, 0x7f)
+		s2, _, _ := implStream(v.T, more, nil)
+		if s2 != want {
+			c.oracle("C02 a stream read takes bytes that belong to what follows", fmt.Sprintf("D %d %s (followed by %d more bytes)", v.T, hx(b), len(more)-len(b)), s2, "want "+want)
+		}
+	}
 	if c02ReuseN++; c02ReuseN%4 == 0 || len(b) > 60000 {
 		c02Reuse(c, v, b, text)
 	}
@@ -551,27 +568,36 @@ func c02Reuse(c *checker, v *wv.V, b []byte, text string) {
 }
 
 // read segmentation for the C02 stream read: cheap deterministic rotation of whole / 1-byte /
-// 3-byte / 7-byte chunks (C03 explores random segmentations).
+// 3-byte / 7-byte chunks and 1- / 2-byte chunks each preceded by a zero-length read (0, nil), which an
+// io.Reader may return at any time (C03 explores random segmentations).
 var c02Seg int
 
 func c02Sizes(n int) []int {
 	c02Seg++
 	var k int
-	switch c02Seg % 4 {
+	zero := false // a zero-length read (0, nil) before every piece
+	switch c02Seg % 6 {
 	case 0:
 		return nil
 	case 1:
 		k = 1
 	case 2:
 		k = 3
-	default:
+	case 3:
 		k = 7
+	case 4:
+		k, zero = 1, true
+	default:
+		k, zero = 2, true
 	}
 	if n > 4096 {
 		k = 4093 // keep huge binaries cheap but still segmented
 	}
 	s := make([]int, 0, n/k+1)
 	for left := n; left > 0; left -= k {
+		if zero {
+			s = append(s, 0)
+		}
 		s = append(s, k)
 	}
 	return s
@@ -699,7 +725,7 @@ func runC02(c *checker, r *rng.R) {
 		}
 	}
 	c.flush()
-	c.rep.Rule = "values: bounded-exhaustive enumeration of small shapes + random typed values (all 11 types, nested, raw element-type bytes on empty containers, extreme ints, special doubles) + binaries at the 1 MiB threshold, two over-threshold binaries per value, long maps/lists/sets of fixed-width items (300–6000 entries; four of 2^16 … 2^16+4 items, without the model), every binary length 120–300 and around powers of two up to 64 KiB; random-access decode through bytes.Reader and through a ReaderAt that returns io.EOF together with the last bytes; every third value preceded by an Encode and a stream-writer sequence of the same value into a destination that fails half-way; stream reads and skips (every other non-seekable reader with a Seek method that always fails, like the read end of a pipe; binaries alternately through ReadBinary and ReadString) under rotating segmentation, every other reader returning its last byte together with io.EOF; every fourth value (and every large one) is also decoded, encoded, forced with wire.EvaluateValue, followed by other decodes, and encoded and read again: it must still be the original; non-trivial = has more than one node or is a double/binary; distinct by canonical text"
+	c.rep.Rule = "values: bounded-exhaustive enumeration of small shapes + random typed values (all 11 types, nested, raw element-type bytes on empty containers, extreme ints, special doubles) + binaries at the 1 MiB threshold, two over-threshold binaries per value, long maps/lists/sets of fixed-width items (300–6000 entries; four of 2^16 … 2^16+4 items, without the model), every binary length 120–300 and around powers of two up to 64 KiB; random-access decode through bytes.Reader and through a ReaderAt that returns io.EOF together with the last bytes; every third value preceded by an Encode and a stream-writer sequence of the same value into a destination that fails half-way; stream reads and skips (every other non-seekable reader with a Seek method that always fails, like the read end of a pipe; binaries alternately through ReadBinary and ReadString) under rotating segmentation (whole, 1, 3, 7 bytes, and 1 or 2 bytes after a zero-length read each), every other reader returning its last byte together with io.EOF; every third value is also read from a stream that goes on behind it (consumption must be exact); random-access decodes also through a bytes.Reader that has been read from before; every fourth value (and every large one) is also decoded, encoded, forced with wire.EvaluateValue, followed by other decodes, and encoded and read again: it must still be the original; non-trivial = has more than one node or is a double/binary; distinct by canonical text"
 }
 
 // ---- C03 ----
